@@ -30,7 +30,7 @@ struct nsync_counter_s_ {
 
 #define MAXOPS 16
 #define MAXOBJ 8
-struct op { char name[16]; int a, b, dl; };
+struct op { char name[16]; int a, b, dl, x; };
 enum { K_COUNTER = 1, K_ONCE, K_NOTE };
 static struct {
 	int kind, n, v0;
@@ -43,7 +43,7 @@ static struct {
 	nsync_once *once[2]; int runs[2], done[2], running[2];
 	/* notes */
 	nsync_note note[MAXOBJ]; int nnotes; int freed[MAXOBJ]; int notify_called[MAXOBJ]; int parent_of[MAXOBJ]; int dl_of[MAXOBJ];
-	int seen_notified[MAXOBJ];
+	int seen_notified[MAXOBJ]; int called[MAXOBJ]; int lpar[MAXOBJ]; int pending_new[RT_MAXT];
 	int ideal;
 } S;
 
@@ -94,6 +94,44 @@ static void client (void *arg) {
 				if (r != 0 && !expired (o->dl)) rt_violation ("O-ret", "nsync_counter_wait returned %u (timeout) at clock %ld before its deadline %d", r, (long) (rt_now () - RT_T0), o->dl);
 				S.ret[t] = (int) r;
 			}
+		} else if (S.kind == K_NOTE) {
+			int a = o->a;
+			if (!strcmp (o->name, "new")) {
+				nsync_note nn;
+				if (o->x == 1) rt_fail_malloc_at (1);
+				S.pending_new[t] = a;
+				nn = nsync_note_new (o->b ? S.note[o->b] : NULL, deadline (o->dl));
+				rt_fail_malloc_at (0);
+				S.pending_new[t] = 0;
+				if (o->x == 1 && nn != NULL) rt_violation ("O-crash", "nsync_note_new returned a note although its allocation failed");
+				if (o->x != 1 && nn == NULL) rt_violation ("O-crash", "nsync_note_new returned NULL although memory was available");
+				if (nn != NULL) { S.note[a] = nn; S.dl_of[a] = o->dl; S.lpar[a] = o->b; S.freed[a] = 0; { char nm[16]; snprintf (nm, sizeof nm, "note%d", a); rt_name (nn, sizeof *nn, nm); } }
+				S.ret[t] = nn != NULL ? a : 0;
+			} else if (!strcmp (o->name, "notify")) {
+				S.called[a] = 1;
+				nsync_note_notify (S.note[a]);
+				if (*(volatile uint32_t *) &S.note[a]->notified == 0) rt_violation ("O-lin", "nsync_note_notify(note %d) returned but the note is not notified", a);
+				S.seen_notified[a] = 1;
+				S.ret[t] = 1;
+			} else if (!strcmp (o->name, "poll") || !strcmp (o->name, "wait")) {
+				int r = !strcmp (o->name, "poll") ? nsync_note_is_notified (S.note[a]) : nsync_note_wait (S.note[a], deadline (o->dl));
+				if (r) {
+					int x = a, k, cause = 0;
+					for (k = 0; k < MAXOBJ && x != 0; k++, x = S.lpar[x]) if (S.called[x] || expired (S.dl_of[x])) cause = 1;
+					if (!cause) rt_violation ("O-lin", "note %d observed notified although neither it nor an ancestor was notified and no deadline on that path has passed", a);
+					S.seen_notified[a] = 1;
+				} else {
+					if (S.seen_notified[a]) rt_violation ("O-lin", "note %d observed un-notified after it had been observed notified", a);
+					if (!strcmp (o->name, "wait") && !expired (o->dl)) rt_violation ("O-ret", "nsync_note_wait(note %d) timed out at clock %ld before its deadline %d", a, (long) (rt_now () - RT_T0), o->dl);
+				}
+				S.ret[t] = r;
+			} else if (!strcmp (o->name, "free")) {
+				int x;
+				nsync_note_free (S.note[a]);
+				S.freed[a] = 1;
+				for (x = 1; x < MAXOBJ; x++) if (S.lpar[x] == a) S.lpar[x] = S.lpar[a];
+				S.ret[t] = 0;
+			}
 		} else if (S.kind == K_ONCE) {
 			int k = o->a, which = o->b;      /* k: 0 run_once, 1 run_once_arg, 2 run_once_spin, 3 run_once_arg_spin */
 			if (k == 0) nsync_run_once (S.once[which], which ? once_fn1 : once_fn0);
@@ -125,7 +163,7 @@ static void parse_init (const char *init) {
 		if (*p == ';') { t++; p++; continue; }
 		if (*p == ',' || *p == '-') { p++; continue; }
 		o = &S.prog[t][S.nops[t]++];
-		sscanf (p, "%15[^.].%d.%d.%d", o->name, &o->a, &o->b, &o->dl);
+		sscanf (p, "%15[^.].%d.%d.%d.%d", o->name, &o->a, &o->b, &o->dl, &o->x);
 		while (*p && *p != ',' && *p != ';' && *p != ' ' && *p != '\n') p++;
 	}
 	S.n = t + 1;
@@ -147,6 +185,22 @@ static void setup (const char *init) {
 		S.once[0] = base; S.once[1] = base + 64;
 		rt_name (S.once[0], sizeof (nsync_once), "once0"); rt_name (S.once[1], sizeof (nsync_once), "once1");
 	}
+	else if (S.kind == K_NOTE) {
+		const char *p = strstr (cur_init, "tree=");
+		if (p) {
+			p += 5;
+			while (*p && *p != ' ') {
+				int id = 0, par = 0, dl = 0; char nm[16];
+				sscanf (p, "%d.%d.%d", &id, &par, &dl);
+				S.note[id] = nsync_note_new (par ? S.note[par] : NULL, deadline (dl));
+				S.dl_of[id] = dl; S.lpar[id] = par;
+				snprintf (nm, sizeof nm, "note%d", id); rt_name (S.note[id], sizeof *S.note[id], nm);
+				while (*p && *p != ',' && *p != ' ') p++;
+				if (*p == ',') p++;
+			}
+		}
+		p = strstr (cur_init, "NN="); S.nnotes = p ? atoi (p + 3) : 4;
+	}
 	for (i = 0; i < S.n; i++) { S.ret[i] = -1; rt_spawn (client, (void *) (long) i); }
 }
 
@@ -162,6 +216,29 @@ static size_t put_owner_list (char *buf, size_t n, nsync_dll_list_ list) {
 	o += (size_t) snprintf (buf + o, n - o, "]");
 	return o;
 }
+static int slot_of (nsync_note p) {
+	int k, ow;
+	if (p == NULL) return 0;
+	for (k = 1; k < MAXOBJ; k++) if (S.note[k] == p) return k;
+	/* a note still under construction: the slot its creator is filling */
+	ow = rt_block_owner (p);
+	if (ow >= 0 && S.pending_new[ow]) return S.pending_new[ow];
+	return 99;
+}
+static int tick_of (nsync_time t) {
+	if (t.tv_sec == nsync_time_no_deadline.tv_sec) return 9999;
+	if (t.tv_sec == 0 && t.tv_nsec == 0) return -9999;
+	return (int) (t.tv_sec / RT_TICK_SEC - RT_T0);
+}
+static size_t put_note_list (char *buf, size_t n, nsync_dll_list_ list) {
+	size_t o = 0; int k = 0;
+	nsync_dll_element_ *p;
+	o += (size_t) snprintf (buf + o, n - o, "[");
+	for (p = nsync_dll_first_ (list); p != NULL && k < 16; p = nsync_dll_next_ (list, p), k++)
+		o += (size_t) snprintf (buf + o, n - o, "%s%d", k ? "," : "", slot_of ((nsync_note) p->container));
+	o += (size_t) snprintf (buf + o, n - o, "]");
+	return o;
+}
 #define PUTARR(name, expr) do { o += (size_t) snprintf (buf + o, n - o, " " name "=["); \
 	for (i = 0; i < S.n; i++) o += (size_t) snprintf (buf + o, n - o, "%s%d", i ? "," : "", (int) (expr)); \
 	o += (size_t) snprintf (buf + o, n - o, "]"); } while (0)
@@ -172,6 +249,27 @@ static void obs (char *buf, size_t n) {
 		o += (size_t) snprintf (buf + o, n - o, "value=%u waited=%u q=", *(volatile uint32_t *) &S.c->value, *(volatile uint32_t *) &S.c->waited);
 		o += put_owner_list (buf + o, n - o, S.c->waiters);
 		o += (size_t) snprintf (buf + o, n - o, " lockh=%d", rt_ideal_holder ? rt_ideal_holder (&S.c->counter_mu) : 0);
+		PUTARR ("nww", S.nwrec[i] ? *(volatile uint32_t *) S.nwrec[i] : 0);
+		PUTARR ("sem", sem_of (i));
+		o += (size_t) snprintf (buf + o, n - o, " now=%ld", (long) (rt_now () - RT_T0));
+		PUTARR ("ret", S.ret[i]);
+	} else if (S.kind == K_NOTE) {
+		int k;
+#define LIVE(k) (S.note[k] != NULL && !S.freed[k])
+#define NARR(name, expr) do { o += (size_t) snprintf (buf + o, n - o, "%s" name "=[", o ? " " : ""); \
+	for (k = 1; k <= S.nnotes; k++) o += (size_t) snprintf (buf + o, n - o, "%s%d", k > 1 ? "," : "", (int) (expr)); \
+	o += (size_t) snprintf (buf + o, n - o, "]"); } while (0)
+		NARR ("live", S.note[k] == NULL ? 0 : (S.freed[k] ? 2 : 1));
+		NARR ("notified", LIVE (k) ? *(volatile uint32_t *) &S.note[k]->notified : 0);
+		NARR ("exp", LIVE (k) ? tick_of (S.note[k]->expiry_time) : 0);
+		NARR ("par", LIVE (k) ? slot_of (S.note[k]->parent) : 0);
+		o += (size_t) snprintf (buf + o, n - o, " kids=[");
+		for (k = 1; k <= S.nnotes; k++) { o += (size_t) snprintf (buf + o, n - o, "%s", k > 1 ? "," : ""); if (LIVE (k)) o += put_note_list (buf + o, n - o, S.note[k]->children); else o += (size_t) snprintf (buf + o, n - o, "[]"); }
+		o += (size_t) snprintf (buf + o, n - o, "] wts=[");
+		for (k = 1; k <= S.nnotes; k++) { o += (size_t) snprintf (buf + o, n - o, "%s", k > 1 ? "," : ""); if (LIVE (k)) o += put_owner_list (buf + o, n - o, S.note[k]->waiters); else o += (size_t) snprintf (buf + o, n - o, "[]"); }
+		o += (size_t) snprintf (buf + o, n - o, "]");
+		NARR ("disc", LIVE (k) ? S.note[k]->disconnecting : 0);
+		NARR ("lk", LIVE (k) && rt_ideal_holder ? rt_ideal_holder (&S.note[k]->note_mu) : 0);
 		PUTARR ("nww", S.nwrec[i] ? *(volatile uint32_t *) S.nwrec[i] : 0);
 		PUTARR ("sem", sem_of (i));
 		o += (size_t) snprintf (buf + o, n - o, " now=%ld", (long) (rt_now () - RT_T0));
